@@ -57,6 +57,10 @@ where
     let mut trailers = vec![];
     let mut err = None;
     loop {
+        // like hyper: a body that reports `is_end_stream()` is not polled any further
+        if body.is_end_stream() {
+            break;
+        }
         let f = std::future::poll_fn(|cx| body.as_mut().poll_frame(cx)).await;
         match f {
             None => break,
